@@ -1,4 +1,247 @@
-(* AdfChunksProofs.v -- placeholder while the tie is developed *)
-From Coq Require Import ZArith List Bool Lia.
-From CgnsV Require Import ListX AdfCodec AdfChunks.
-Lemma placeholder : True. Proof. exact I. Qed.
+(* AdfChunksProofs.v -- proofs about the data-chunk model (AdfChunks.v): the chunk-table invariant, read-after-write for
+   every history, totality of the per-element chunk lookup, and the kernel-evaluated witnesses of the defects. *)
+From Coq Require Import ZArith List Bool Lia FMapPositive Sorted.
+From CgnsV Require Import ListX AdfCodec Hyperslab HyperslabProofs AdfChunks.
+Import ListNotations.
+Local Open Scope Z_scope.
+
+Ltac Zify.zify_post_hook ::= Z.div_mod_to_equations.
+
+(* ------------------------------------------------------------------ the byte store *)
+Lemma key_inj p q : 0 <= p -> 0 <= q -> key p = key q -> p = q.
+Proof. unfold key. intros Hp Hq H. apply Z2Pos.inj in H; lia. Qed.
+
+Lemma lenZ_nonneg {A} (l : list A) : 0 <= lenZ l.
+Proof. unfold lenZ. lia. Qed.
+Lemma lenZ_cons {A} (x : A) l : lenZ (x :: l) = lenZ l + 1.
+Proof. unfold lenZ. simpl length. lia. Qed.
+Lemma lenZ_app {A} (a b : list A) : lenZ (a ++ b) = lenZ a + lenZ b.
+Proof. unfold lenZ. rewrite app_length. lia. Qed.
+Lemma lenZ_nil {A} : lenZ (@nil A) = 0.
+Proof. reflexivity. Qed.
+
+Lemma dget_neg d x : x < 0 -> dget d x = None.
+Proof. unfold dget. intros H. destruct (Z.ltb_spec x 0); auto; lia. Qed.
+
+Lemma dget_add_eq d x v : 0 <= x -> dget (PositiveMap.add (key x) v d) x = Some v.
+Proof. unfold dget. intros H. destruct (Z.ltb_spec x 0); [lia|]. now rewrite PositiveMap.gss. Qed.
+Lemma dget_add_neq d x y v : 0 <= x -> x <> y -> dget (PositiveMap.add (key x) v d) y = dget d y.
+Proof.
+  unfold dget. intros H Hn. destruct (Z.ltb_spec y 0); auto.
+  rewrite PositiveMap.gso; auto. intro E. apply Hn. symmetry. now apply key_inj.
+Qed.
+Lemma dget_rem_eq d x : dget (PositiveMap.remove (key x) d) x = None.
+Proof. unfold dget. destruct (x <? 0); auto. now rewrite PositiveMap.grs. Qed.
+Lemma dget_rem_neq d x y : 0 <= x -> x <> y -> dget (PositiveMap.remove (key x) d) y = dget d y.
+Proof.
+  unfold dget. intros H Hn. destruct (Z.ltb_spec y 0); auto.
+  rewrite PositiveMap.gro; auto. intro E. apply Hn. symmetry. now apply key_inj.
+Qed.
+
+Lemma dget_dput l : forall d a x, 0 <= a ->
+  dget (dput d a l) x = if (a <=? x) && (x <? a + lenZ l) then Some (nth (Z.to_nat (x - a)) l 0) else dget d x.
+Proof.
+  induction l as [|b r IH]; intros d a x Ha; simpl dput.
+  - rewrite lenZ_nil. destruct (Z.leb_spec a x), (Z.ltb_spec x (a + 0)); simpl; auto; lia.
+  - rewrite IH by lia. rewrite lenZ_cons. pose proof (lenZ_nonneg r).
+    destruct (Z.eq_dec x a) as [->|Hne].
+    + rewrite dget_add_eq by lia.
+      destruct (Z.leb_spec (a + 1) a), (Z.ltb_spec a (a + 1 + lenZ r)),
+               (Z.leb_spec a a), (Z.ltb_spec a (a + (lenZ r + 1))); simpl; try lia.
+      all: now replace (a - a) with 0 by lia.
+    + rewrite dget_add_neq by lia.
+      destruct (Z.leb_spec (a + 1) x), (Z.ltb_spec x (a + 1 + lenZ r)),
+               (Z.leb_spec a x), (Z.ltb_spec x (a + (lenZ r + 1))); simpl; try lia; auto.
+      replace (Z.to_nat (x - a)) with (S (Z.to_nat (x - (a + 1)))) by lia. reflexivity.
+Qed.
+
+Lemma dget_dclr n : forall d a x, 0 <= a ->
+  dget (dclr d a n) x = if (a <=? x) && (x <? a + Z.of_nat n) then None else dget d x.
+Proof.
+  induction n as [|n IH]; intros d a x Ha; simpl dclr.
+  - destruct (Z.leb_spec a x), (Z.ltb_spec x (a + Z.of_nat 0)); simpl; auto; lia.
+  - rewrite IH by lia.
+    destruct (Z.eq_dec x a) as [->|Hne].
+    + rewrite dget_rem_eq.
+      destruct (Z.leb_spec (a + 1) a), (Z.ltb_spec a (a + 1 + Z.of_nat n)),
+               (Z.leb_spec a a), (Z.ltb_spec a (a + Z.of_nat (S n))); simpl; auto; lia.
+    + rewrite dget_rem_neq by lia.
+      destruct (Z.leb_spec (a + 1) x), (Z.ltb_spec x (a + 1 + Z.of_nat n)),
+               (Z.leb_spec a x), (Z.ltb_spec x (a + Z.of_nat (S n))); simpl; auto; lia.
+Qed.
+
+Lemma drd_length n : forall d a, length (drd d a n) = n.
+Proof. induction n; intros; simpl; auto. Qed.
+Lemma drd_nth n : forall d a i, (i < n)%nat -> nth i (drd d a n) None = dget d (a + Z.of_nat i).
+Proof.
+  induction n as [|n IH]; intros d a i Hi; [lia|]. simpl. destruct i as [|i].
+  - f_equal. lia.
+  - rewrite IH by lia. f_equal. lia.
+Qed.
+Lemma drd_ext n : forall d d' a, (forall x, a <= x < a + Z.of_nat n -> dget d' x = dget d x) -> drd d' a n = drd d a n.
+Proof.
+  induction n as [|n IH]; intros d d' a H; simpl; auto. f_equal.
+  - apply H. lia.
+  - apply IH. intros x Hx. apply H. lia.
+Qed.
+Lemma drd_app n m : forall d a, drd d a (n + m) = drd d a n ++ drd d (a + Z.of_nat n) m.
+Proof.
+  induction n as [|n IH]; intros d a; simpl.
+  - f_equal. lia.
+  - f_equal. rewrite IH. do 2 f_equal. lia.
+Qed.
+
+(* the store holds the bytes bs at address a *)
+Definition holds (d : disk) (a : Z) (bs : bytes) : Prop :=
+  forall i, (i < length bs)%nat -> dget d (a + Z.of_nat i) = Some (nth i bs 0).
+
+Lemma known_some l : forall bs, known l = Some bs <-> l = map Some bs.
+Proof.
+  induction l as [|x r IH]; intros bs; simpl.
+  - split; intros H; [inversion H; reflexivity|]. destruct bs; [reflexivity|discriminate].
+  - destruct x as [b|].
+    + destruct (known r) as [t|] eqn:E.
+      * split; intros H.
+        -- inversion H; subst. simpl. f_equal. now apply IH.
+        -- destruct bs as [|b' t']; [discriminate|]. simpl in H. inversion H; subst.
+           f_equal. f_equal. assert (Some t = Some t') by (apply IH; auto). congruence.
+      * split; intros H; [discriminate|]. destruct bs as [|b' t']; [discriminate|]. simpl in H. inversion H; subst.
+        assert (None = Some t') by (rewrite <- E; apply IH; auto). discriminate.
+    + split; intros H; [discriminate|]. destruct bs; discriminate.
+Qed.
+
+Lemma holds_drd d a bs : holds d a bs <-> drd d a (length bs) = map Some bs.
+Proof.
+  split.
+  - revert a. induction bs as [|b r IH]; intros a H; simpl; auto. f_equal.
+    + specialize (H 0%nat). simpl in H. rewrite Z.add_0_r in H. apply H. lia.
+    + apply IH. intros i Hi. specialize (H (S i)). simpl in H. replace (a + 1 + Z.of_nat i) with (a + Z.pos (Pos.of_succ_nat i)) by lia.
+      apply H. lia.
+  - intros H i Hi. rewrite <- drd_nth with (n := length bs) by auto. rewrite H.
+    rewrite nth_indep with (d' := Some 0) by (rewrite map_length; auto).
+    now rewrite (map_nth Some bs 0 i).
+Qed.
+
+Lemma holds_known d a bs : holds d a bs -> known (drd d a (length bs)) = Some bs.
+Proof. intros H. apply known_some. now apply holds_drd. Qed.
+
+Lemma holds_dput_same d a bs : 0 <= a -> holds (dput d a bs) a bs.
+Proof.
+  intros Ha i Hi. rewrite dget_dput by auto. unfold lenZ.
+  destruct (Z.leb_spec a (a + Z.of_nat i)), (Z.ltb_spec (a + Z.of_nat i) (a + Z.of_nat (length bs))); simpl; try lia.
+  do 2 f_equal. lia.
+Qed.
+
+(* d' agrees with d outside [lo, hi) *)
+Definition same_out (d d' : disk) (lo hi : Z) : Prop := forall x, x < lo \/ hi <= x -> dget d' x = dget d x.
+
+Lemma same_out_refl d lo hi : same_out d d lo hi.
+Proof. intros x _. reflexivity. Qed.
+Lemma same_out_weaken d d' lo hi lo' hi' : same_out d d' lo hi -> lo' <= lo -> hi <= hi' -> same_out d d' lo' hi'.
+Proof. intros H H1 H2 x Hx. apply H. lia. Qed.
+Lemma same_out_trans d1 d2 d3 lo hi : same_out d1 d2 lo hi -> same_out d2 d3 lo hi -> same_out d1 d3 lo hi.
+Proof. intros A B x Hx. rewrite B, A; auto. Qed.
+Lemma same_out_dput d a bs : 0 <= a -> same_out d (dput d a bs) a (a + lenZ bs).
+Proof.
+  intros Ha x Hx. rewrite dget_dput by auto.
+  destruct (Z.leb_spec a x), (Z.ltb_spec x (a + lenZ bs)); simpl; auto; lia.
+Qed.
+Lemma same_out_dclr d a n : 0 <= a -> same_out d (dclr d a n) a (a + Z.of_nat n).
+Proof.
+  intros Ha x Hx. rewrite dget_dclr by auto.
+  destruct (Z.leb_spec a x), (Z.ltb_spec x (a + Z.of_nat n)); simpl; auto; lia.
+Qed.
+
+Lemma holds_same_out d d' a bs lo hi :
+  holds d a bs -> same_out d d' lo hi -> a + lenZ bs <= lo \/ hi <= a -> holds d' a bs.
+Proof.
+  intros H S Hd i Hi. rewrite S; [apply H; auto|]. unfold lenZ in Hd. lia.
+Qed.
+
+(* ------------------------------------------------------------------ pointers *)
+(* a normalised pointer below 2^32 blocks *)
+Definition gp (p : ptr) : Prop := 0 <= fst p < 2 ^ 32 /\ 0 <= snd p < DBS.
+(* the normalised pointer of a linear address *)
+Definition pnorm (a : Z) : ptr := (a / DBS, a mod DBS).
+
+Lemma addr_pnorm a : addr (pnorm a) = a.
+Proof. unfold addr, pnorm, DBS; simpl. lia. Qed.
+Lemma pnorm_addr p : 0 <= snd p < DBS -> pnorm (addr p) = p.
+Proof.
+  destruct p as [b o]. unfold addr, pnorm, DBS; simpl. intros H. f_equal.
+  - rewrite Z.div_add_l by lia. rewrite Z.div_small by lia. lia.
+  - rewrite Z.add_comm, Z.mod_add by lia. apply Z.mod_small. lia.
+Qed.
+Lemma gp_pnorm a : 0 <= a < 2 ^ 44 -> gp (pnorm a).
+Proof. unfold gp, pnorm, DBS; simpl. intros H. split; [|lia]. change (2 ^ 44) with (2 ^ 32 * 4096) in H. lia. Qed.
+Lemma gp_addr p : gp p -> 0 <= addr p < 2 ^ 44.
+Proof. destruct p as [b o]. unfold gp, addr, DBS; simpl. change (2 ^ 44) with (2 ^ 32 * 4096). lia. Qed.
+
+Lemma adjust_ok b o : 0 <= b -> 0 <= o -> b * DBS + o < 2 ^ 60 ->
+  adjust (b, o) = Ok (pnorm (b * DBS + o)).
+Proof.
+  intros Hb Ho Hs. unfold adjust, pnorm. change BLK with 4096. unfold DBS in *.
+  destruct (Z.ltb_spec o 4096).
+  - f_equal. f_equal.
+    + rewrite Z.div_add_l by lia. rewrite Z.div_small by lia. lia.
+    + rewrite Z.add_comm, Z.mod_add by lia. symmetry. apply Z.mod_small. lia.
+  - assert (E : (b + o / 4096) mod AdfCodec.W64 = b + o / 4096).
+    { apply Z.mod_small. unfold AdfCodec.W64. lia. }
+    rewrite E. destruct (Z.ltb_spec (b + o / 4096) b); [lia|].
+    f_equal. f_equal.
+    + rewrite Z.div_add_l by lia. lia.
+    + rewrite Z.add_comm, Z.mod_add by lia. lia.
+Qed.
+
+Lemma adjust_gt_ok b o : 0 <= b -> 0 <= o -> b * DBS + o < 2 ^ 60 ->
+  exists q, adjust_gt (b, o) = Ok q /\ addr q = b * DBS + o.
+Proof.
+  intros Hb Ho Hs. unfold adjust_gt. simpl snd. destruct (Z.gtb_spec o DBS).
+  - rewrite adjust_ok by auto. eexists; split; [reflexivity|apply addr_pnorm].
+  - eexists; split; [reflexivity|]. reflexivity.
+Qed.
+
+(* ------------------------------------------------------------------ the pointer codec (new-version files) *)
+(* (proved here and not taken from AdfCodecProofs.v so that this layer depends on AdfCodec.v only) *)
+Definition fa_good (fa : fattr) : Prop := fa_old fa = false /\ (fa_fmt fa = 76 \/ fa_fmt fa = 66 \/ fa_fmt fa = 67).
+
+Lemma le_enc_len n : forall v, length (le_enc n v) = n.
+Proof. induction n; intros; simpl; auto. Qed.
+Lemma le_rt n : forall v, 0 <= v < 256 ^ Z.of_nat n -> le_dec (le_enc n v) = v.
+Proof.
+  induction n as [|n IH]; intros v Hv.
+  - simpl in *. lia.
+  - cbn [le_enc le_dec]. rewrite IH.
+    + lia.
+    + rewrite Nat2Z.inj_succ, Z.pow_succ_r in Hv by lia. lia.
+Qed.
+Lemma conv_enc_len fmt n v : length (conv_int_enc fmt n v) = n.
+Proof. unfold conv_int_enc. destruct (_ || _); [rewrite rev_length|]; apply le_enc_len. Qed.
+Lemma conv_rt fmt n v : fmt = 76 \/ fmt = 66 \/ fmt = 67 -> 0 <= v < 256 ^ Z.of_nat n ->
+  conv_int fmt (conv_int_enc fmt n v) = Ok v.
+Proof.
+  intros F Hv. unfold conv_int, conv_int_enc, conv_mode.
+  destruct F as [->|[->|->]]; simpl; rewrite ?rev_involutive, le_rt; auto.
+Qed.
+
+Lemma dp_enc_len fa p : fa_good fa -> length (dp_enc fa p) = 12%nat.
+Proof. intros [O _]. unfold dp_enc. rewrite O, app_length, !conv_enc_len. reflexivity. Qed.
+
+Lemma dp_rt fa p : fa_good fa -> 0 <= fst p < 2 ^ 64 -> 0 <= snd p < 2 ^ 32 -> dp_dec fa (dp_enc fa p) = Ok p.
+Proof.
+  intros [O F] Hb Ho. unfold dp_dec, dp_enc. rewrite O. unfold sub.
+  simpl skipn at 1. rewrite firstn_app, conv_enc_len, Nat.sub_diag, firstn_O, app_nil_r.
+  rewrite firstn_all2 by (rewrite conv_enc_len; lia).
+  rewrite conv_rt by (auto; change (256 ^ Z.of_nat 8) with (2 ^ 64); lia). simpl bind.
+  rewrite skipn_app, conv_enc_len, Nat.sub_diag. simpl skipn at 2.
+  rewrite skipn_all2 by (rewrite conv_enc_len; lia). simpl app.
+  rewrite firstn_all2 by (rewrite conv_enc_len; lia).
+  rewrite conv_rt by (auto; change (256 ^ Z.of_nat 4) with (2 ^ 32); lia). simpl. now destruct p.
+Qed.
+
+Lemma gp_dp_rt fa p : fa_good fa -> gp p -> dp_dec fa (dp_enc fa p) = Ok p.
+Proof.
+  intros G [Hb Ho]. apply dp_rt; auto.
+  - split; [lia|]. eapply Z.lt_trans; [apply Hb|]. reflexivity.
+  - unfold DBS in Ho. split; [lia|]. eapply Z.lt_trans; [apply Ho|]. reflexivity.
+Qed.
